@@ -78,29 +78,33 @@ def rq_reader(case, ctx):
 
 
 def _open(case, ctx, weights=None):
-    """Create a real cooler for the case; returns (path, table)."""
+    """Create a real cooler for the case (at the file root, or in the group case["at"] next to a decoy collection with other
+    content and other weights at the root); returns its URI."""
     n = case["n"]
     table = case.get("table") or gen.simple_table(n)
-    path = ctx.path()
-    gen.make_cooler(path, table, case["px"], case["mode"])
+    uri = gen.place(ctx.path(), table, case["px"], case["mode"], at=case.get("at"))
     if weights:
         import h5py
-        with h5py.File(path, "r+") as f:
+        fp, grp = gen.split_uri(uri)
+        with h5py.File(fp, "r+") as f:
             for name, vals in weights.items():
-                f["bins"].create_dataset(name, data=np.array(vals, dtype=float))
-    return path
+                f[grp]["bins"].create_dataset(name, data=np.array(vals, dtype=float))
+                if grp != "/":
+                    f["bins"].create_dataset(name, data=np.array([2.0 if v == v and v != 2.0 else 4.0 for v in vals], dtype=float))
+    return uri
 
 
-def _with_cooler(case, path, fn):
+def _with_cooler(case, uri, fn):
     import cooler
     import h5py
     how = case.get("open", "handle")
+    fp, grp = gen.split_uri(uri)
     if how == "path":
-        return fn(cooler.Cooler(path))
+        return fn(cooler.Cooler(uri))
     if how == "uri":
-        return fn(cooler.Cooler(path + "::/"))
-    with h5py.File(path, "r") as f:
-        return fn(cooler.Cooler(f["/"]))
+        return fn(cooler.Cooler(fp + "::" + (grp if grp == "/" else grp.lstrip("/"))))     # group without the leading slash
+    with h5py.File(fp, "r") as f:
+        return fn(cooler.Cooler(f[grp]))
 
 
 @driver("rq.api")
